@@ -484,17 +484,29 @@ def run_c16(tier, seed, wd, info, verdict):
 
 
 # ------------------------------------------------------------------------------------------ C14
+# request orders of Cluster.tla: A, B the duties, O an old duty; a / b = duty A / B arriving while the instance's storage cannot be
+# read, x / y = duty A / B arriving while the record cannot be written
+DUTY_OF = dict(A="A", B="B", a="A", b="B", x="A", y="B")
+FAULT_OF = dict(a="read", b="read", x="write", y="write")
+
+
+def wants(routing, d):
+    """Number of instances that are asked for duty d at all (with or without a storage fault)."""
+    return sum(1 for o in routing if any(DUTY_OF.get(c) == d for c in o))
+
+
 def run_c14(tier, seed, wd, info, verdict):
     rnd = random.Random(seed)
     # model: every accepted (n,t), all routings and interleavings, with repeats
     for n in range(2, 8 if tier != "quick" else 6):
         for t in range(1, n + 1):
-            r = tlc("Cluster", make_cfg(dict(N=n, T=t, ThresholdMode="gtHalf", SplitHistory=False, OldResets=False, OutFile="x"), invariants=["NotBothThreshold"]), wd, name="Cluster_%d_%d" % (n, t), timeout=900)
+            r = tlc("Cluster", make_cfg(dict(N=n, T=t, ThresholdMode="gtHalf", SplitHistory=False, OldResets=False, FaultMode="closed", OutFile="x"), invariants=["NotBothThreshold"]), wd, name="Cluster_%d_%d" % (n, t), timeout=900)
             require_ok(r, "Cluster(%d,%d)" % (n, t))
             info["states"] += r.distinct
             info["transitions"] += r.generated
-    for m, nt in ((dict(ThresholdMode="geHalf"), (4, 2)), (dict(SplitHistory=True), (3, 2)), (dict(OldResets=True), (3, 2))):
-        c = dict(N=nt[0], T=nt[1], ThresholdMode="gtHalf", SplitHistory=False, OldResets=False, OutFile="x")
+    for m, nt in ((dict(ThresholdMode="geHalf"), (4, 2)), (dict(SplitHistory=True), (3, 2)), (dict(OldResets=True), (3, 2)),
+                  (dict(FaultMode="readOpen"), (3, 2)), (dict(FaultMode="writeOpen"), (3, 2))):
+        c = dict(N=nt[0], T=nt[1], ThresholdMode="gtHalf", SplitHistory=False, OldResets=False, FaultMode="closed", OutFile="x")
         c.update(m)
         rm = tlc("Cluster", make_cfg(c, invariants=["NotBothThreshold"]), wd, name="Cluster_mut")
         require_killed(rm, "Cluster mutant %s" % m, ["NotBothThreshold"])
@@ -508,22 +520,24 @@ def run_c14(tier, seed, wd, info, verdict):
     scs, meta = [], {}
     variants = ["single", "batch1", "batch2", "batch2d"]     # batch2d: the duty is followed, in the same batch, by an entry that the rules refuse
     for n, t in nts:
-        c = dict(N=n, T=t, ThresholdMode="gtHalf", SplitHistory=False, OldResets=False, OutFile="routings.json")
+        c = dict(N=n, T=t, ThresholdMode="gtHalf", SplitHistory=False, OldResets=False, FaultMode="closed", OutFile="routings.json")
         r = tlc("ClusterTable", make_cfg(c), wd, name="ClusterTable_%d_%d" % (n, t), workers=1)
         require_ok(r, "ClusterTable")
         routings = json.load(open(os.path.join(wd, "ClusterTable_%d_%d" % (n, t), "routings.json")))["routings"]
         routings = sorted(routings, key=lambda x: json.dumps(x))
         if tier == "quick":
             # every routing in which both duties could reach t if nothing stopped them, plus a sample of the rest
-            hot = [x for x in routings if sum(1 for o in x if "A" in o) >= t and sum(1 for o in x if "B" in o) >= t]
+            hot = [x for x in routings if wants(x, "A") >= t and wants(x, "B") >= t]
+            hot_fault = [x for x in hot if any(c in "abxy" for o in x for c in o)]
+            hot = [x for x in hot if x not in hot_fault]
             hot_old = [x for x in hot if any("O" in o for o in x)]
             hot_plain = [x for x in hot if not any("O" in o for o in x)]
-            routings = rnd.sample(hot_plain, min(len(hot_plain), 45)) + rnd.sample(hot_old, min(len(hot_old), 30)) + rnd.sample(routings, 15)
+            routings = rnd.sample(hot_plain, min(len(hot_plain), 45)) + rnd.sample(hot_old, min(len(hot_old), 30)) + rnd.sample(hot_fault, min(len(hot_fault), 40)) + rnd.sample(routings, 15)
         elif len(routings) > 3000:
-            hot = [x for x in routings if sum(1 for o in x if "A" in o) >= t and sum(1 for o in x if "B" in o) >= t]
+            hot = [x for x in routings if wants(x, "A") >= t and wants(x, "B") >= t]
             routings = rnd.sample(hot, min(len(hot), 2400)) + rnd.sample(routings, 600)
         # the first routing on the fresh cluster carries the genesis-epoch pair: make it one in which both duties could reach t
-        first = [x for x in routings if sum(1 for o in x if "A" in o) >= t and sum(1 for o in x if "B" in o) >= t]
+        first = [x for x in routings if sum(1 for o in x if "A" in o) >= t and sum(1 for o in x if "B" in o) >= t and not any(c in "abxy" for o in x for c in o)]
         if first:
             routings.remove(first[0])
             routings.insert(0, first[0])
@@ -562,9 +576,12 @@ def run_c14(tier, seed, wd, info, verdict):
             if ri % 4 == 3:
                 flat = flat + [(inst, ch) for inst, ch in flat]     # repeats
             for qi, (inst, ch) in enumerate(flat):
-                base = dict(da if ch == "A" else (db if ch == "B" else dold))
-                base.update(inst=inst, duty=a if ch == "A" else (b if ch == "B" else "r%d:O" % ri), variant=variants[(ri + qi + inst) % 4] if base["kind"] == "att" else "single",
+                dd = DUTY_OF.get(ch)
+                base = dict(da if dd == "A" else (db if dd == "B" else dold))
+                base.update(inst=inst, duty=a if dd == "A" else (b if dd == "B" else "r%d:O" % ri), variant=variants[(ri + qi + inst) % 4] if base["kind"] == "att" else "single",
                             by=("name", "key")[(ri + qi) % 2], filler=1000 * (ri + 1) + 10 * qi + inst)
+                if ch in FAULT_OF:
+                    base["fault"] = FAULT_OF[ch]
                 duties.append(base)
         sid = "C14-%d-%d" % (n, t)
         sc = dict(id=sid, ids=ids, n=n, t=t, initiator=ids[(n + t) % n], account="DW/c14", generate=True, probe=False, duties=duties)
@@ -575,7 +592,9 @@ def run_c14(tier, seed, wd, info, verdict):
     bscs = []
     for sc_ in scs[:1 if tier == "quick" else 3]:
         keep = 30 if tier == "quick" else 400
-        duties = [d for d in sc_["duties"] if int(d["duty"].split(":")[0][1:]) < keep]
+        # (storage faults cannot be injected into the shipped program: routings with faults stay in-process)
+        faulty = {d["duty"].split(":")[0] for d in sc_["duties"] if d.get("fault")}
+        duties = [d for d in sc_["duties"] if int(d["duty"].split(":")[0][1:]) < keep and d["duty"].split(":")[0] not in faulty]
         bsc = dict(sc_, id=sc_["id"].replace("C14-", "C14-bin-"), account="DW/c14b", duties=duties)
         bscs.append(bsc)
         meta[bsc["id"]] = dict(meta[sc_["id"]], conflicts=[c_ for c_ in meta[sc_["id"]]["conflicts"] if int(c_[0].split(":")[0][1:]) < keep])
@@ -587,7 +606,7 @@ def run_c14(tier, seed, wd, info, verdict):
         by.update(split_scenarios(evs_))
     scs = scs + bscs
     lines, index = [], []
-    npart, nvalid = 0, 0
+    npart, nvalid, nfault, nfired = 0, 0, 0, 0
     for sc in scs:
         evs = by.get(sc["id"])
         if evs is None:
@@ -602,6 +621,8 @@ def run_c14(tier, seed, wd, info, verdict):
             if e["ev"] == "Partial":
                 npart += 1
                 nvalid += bool(e["valid"])
+                nfault += bool(e.get("fault"))
+                nfired += bool(e.get("fault_fired"))
                 lines.append(dict(ev="Partial", inst=e["inst"], duty=e["duty"], valid=bool(e["valid"])))
             elif e["ev"] == "DutyTotal":
                 lines.append(dict(ev="DutyTotal", duty=e["duty"], partials=e["partials"], composite_valid=bool(e["composite_valid"])))
@@ -624,7 +645,10 @@ def run_c14(tier, seed, wd, info, verdict):
         verdict.violation("both:n=%d,t=%d" % (sc["n"], sc["t"]),
                           "n=%d t=%d: two conflicting duties BOTH collected t valid partial signatures %s" % (sc["n"], sc["t"], extra[1]),
                           dict(scenario=small, trace=seg[:60], invariant=violated, module="ClusterTrace", conflicts=[[rname + ":A", rname + ":B"]] if rname else meta[sid]["conflicts"]))
+    if nfault and nfired * 2 < nfault:
+        raise Inconclusive("only %d of %d injected storage faults fired during the duty requests" % (nfired, nfault))
     return dict(scenarios=len(scs), nts=nts, routings={k: v["routings"] for k, v in meta.items()}, partial_requests=npart, valid_partials=nvalid,
+                requests_under_storage_fault=nfault, storage_faults_fired=nfired,
                 trace_events=len(lines), sample=lines[index[0][0] - 1:index[0][1]][:10])
 
 
